@@ -20,6 +20,11 @@ Definition norm_shape_args (args : list sarg) : option (list Z) :=
   | None => None
   end.
 
+(* rand/randn go through np.random.rand( *shape ), which returns a Python float for an empty shape;
+   the following .astype raises: 0-d random tensors are rejected *)
+Definition norm_shape_args_rand (args : list sarg) : option (list Z) :=
+  match norm_shape_args args with Some [] => None | r => r end.
+
 (* spec: torch.ones(2,3) = torch.ones((2,3)) = torch.ones([2,3]) : the sizes given either as varargs or as one sequence *)
 Definition spec_shape_args (args : list sarg) : option (list Z) :=
   match args with
